@@ -515,9 +515,10 @@ func checkC03(rep *core.Report) {
 	checkReaderAcceptsZero(prog, r9)
 	r10 := rep.Rule("R03.10", "up to four padding octets at the end of a set are not decoded as a record", 1)
 	checkPaddingBound(prog, r10, "ipfix")
-	r11 := rep.Rule("R03.11", "the template cache stores every announcement it is given (records are decoded as the template last announced)", 2)
+	r11 := rep.Rule("R03.11", "the template cache stores every announcement it is given and finds every template it holds (records are decoded as the template last announced)", 3)
 	if c := findTplCache(prog, "ipfix"); c.insert != nil {
 		checkInsertUnconditional(r11, c)
+		checkRetrieveComplete(r11, c)
 	} else {
 		r11.Undecided("ipfix:insert", token.NoPos, "cache insert not resolved")
 	}
@@ -686,7 +687,7 @@ func checkC06(rep *core.Report) {
 	r3 := rep.Rule("R06.2b", "IANA type names map to their own abstract-type constants", 20)
 	r4 := rep.Rule("R06.3", "one specifier element feeds id, length, octets and type of a decoded field; template order; scope first", 6)
 	r5 := rep.Rule("R06.4", "flowset id routing: 0 template, 1 options template, >255 data", 3)
-	r6 := rep.Rule("R06.5", "every template record handed to the cache is a fresh object, and the cache stores every announcement", 2)
+	r6 := rep.Rule("R06.5", "every template record handed to the cache is a fresh object; the cache stores every announcement and finds every template it holds", 3)
 	r7 := rep.Rule("R06.6", "whoever reads one specifier list of a template reads the other too (records = scope fields + fields)", 1)
 	checkBothFieldLists(prog, r7, "netflow/v9")
 	r8 := rep.Rule("R06.7", "the built-in information model is keyed once per element, by the element's own id", 1)
@@ -783,6 +784,7 @@ func checkC06(rep *core.Report) {
 			// ... and reaches the cache: records are decoded as the template last announced only if insert stores every
 			// announcement (same rule as R04.4)
 			checkInsertUnconditional(r6, c)
+			checkRetrieveComplete(r6, c)
 		} else {
 			r6.Undecided(rel+":insert", token.NoPos, "cache insert not resolved")
 		}
